@@ -100,6 +100,14 @@ func (g *G) FreshVar(ty *m.Type, v *m.Val) *m.Expr {
 	return m.V(name)
 }
 
+// FreshVarNamed binds a given name to a given value (the name must be free).
+func (g *G) FreshVarNamed(name string, v *m.Val) *m.Expr {
+	g.bind(name, v.T)
+	g.Vals[name] = v
+	g.Env[name] = v.T
+	return m.V(name)
+}
+
 func (g *G) bind(name string, ty *m.Type) {
 	// the binding's own written field order is drawn independently of ty's
 	vt := PermuteType(g.T, ty)
